@@ -79,6 +79,10 @@ def _gen(rng, cmd, n, dts):
     order = list(range(n))
     rng.shuffle(order)
     case = {"kind": "value", "cmd": cmd, "inputs": ins, "params": params, "order": order}
+    if "Weights" in params and rng.random() < 0.15:
+        case["weights_as"] = rng.choice(["float32", "float16", "float64", "int64"])       # NumPy scalars, as the programming interface may be handed
+        if case["weights_as"] == "int64":
+            params["Weights"] = [int(rng.randint(1, 9)) for _ in range(n)]
     if cmd in LIST_CMDS and n >= 2 and rng.random() < 0.2:
         # the same field listed more than once: it counts as many times as it is listed
         refs = [rng.randrange(n - 1) for _ in range(n)]
@@ -137,10 +141,15 @@ def run_case(ctx, case):
         ctx.count("repeated_field_cases")
     n = len(inputs)
     ctx.feature(("value", cmd, n, bool(refs), _dtype_class(case["inputs"]), tuple(sorted(set("m" if s["mask"] and any(s["mask"]) else "-" for s in case["inputs"]))),
-                 tuple(type(w).__name__ for w in params.get("Weights", [])), "Metadata" in params))
+                 tuple(type(w).__name__ for w in params.get("Weights", [])), "Metadata" in params, case.get("weights_as")))
     fcols0 = [arr.frac_cells(a) for a in inputs]        # what the inputs hold before anything ran on them
     fcols = [fcols0[i] for i in refs] if refs else fcols0
-    out, prog0 = arr.run_cmd(cmd, inputs, params, refs=refs)
+    call_params = params
+    if case.get("weights_as") and "Weights" in params:
+        conv = getattr(numpy, case["weights_as"])
+        if all(float(conv(w)) == float(w) for w in params["Weights"]):
+            call_params = dict(params, Weights=[conv(w) for w in params["Weights"]])
+    out, prog0 = arr.run_cmd(cmd, inputs, call_params, refs=refs)
     tclass = "first-" + _dtype_class(case["inputs"])[:1] + ("-mixed" if len(set(_dtype_class(case["inputs"]))) > 1 else "-uniform")
     try:
         want, scale = ref.MODELS[cmd](fcols, params)
